@@ -727,6 +727,35 @@ def ep_quant(prog: Program) -> RuleResult:
             keyed, why = True, f"key over {src(coll)} minus the quantified variable"
     r.check(keyed is True, "Exists._evaluate__#keyed-by-free-variables", site(f), why, "one result per binding of the free variables",
             f"{why}: exists(y, x.a == y.a) with x unbound drops a second x that matches the same y, and a bound x with two matching y is answered twice")
+    # the quantified expression may be an attribute chain that enumerates on its way (shelf.boxes -> flatten -> box.parts): the nodes it is
+    # computed from are bound per element and belong to the key, otherwise all boxes of a shelf share one answer
+    id_lists = set()
+    for a_ in adds:
+        key = a_.args[0]
+        if isinstance(key, ast.Name) and len(single.get(key.id, [])) == 1:
+            key = single[key.id][0]
+        for g in [g for x in ast.walk(key) if isinstance(x, (ast.GeneratorExp, ast.ListComp)) for g in x.generators]:
+            if isinstance(g.iter, ast.Name):
+                id_lists.add(g.iter.id)
+    walker_vars = set()
+    for x in walk_local(f.node):
+        if isinstance(x, ast.Assign) and len(x.targets) == 1 and isinstance(x.targets[0], ast.Name) and "_child_" in src(x.value) and \
+                any(isinstance(y, ast.Attribute) and is_self_attr(y) and y.attr in ("variable", "left") for y in ast.walk(x.value)):
+            walker_vars.add(x.targets[0].id)
+    chain = False
+    for x in walk_local(f.node):
+        if isinstance(x, ast.Call) and isinstance(x.func, ast.Attribute) and isinstance(x.func.value, ast.Name) and x.func.value.id in id_lists and x.func.attr in ("append", "extend") and x.args:
+            t = src(x.args[0])
+            if any(t.startswith(w + ".") or t == w for w in walker_vars) or (("_descendants_" in t or "_child_" in t) and ("self.variable" in t or "self.left" in t)):
+                chain = True
+        if isinstance(x, (ast.Assign, ast.AugAssign)) and any(isinstance(tg, ast.Name) and tg.id in id_lists for tg in (x.targets if isinstance(x, ast.Assign) else [x.target])):
+            t = src(x.value)
+            if ("_descendants_" in t or "_child_" in t) and ("self.variable" in t or "self.left" in t):
+                chain = True
+    r.check(chain, "Exists._evaluate__#chain-below-quantified-is-free", site(f), f"id lists {sorted(id_lists)}, chain walkers {sorted(walker_vars)}",
+            "the nodes the quantified expression is computed from are part of the key",
+            "the key holds plain variables only: when the quantified expression is an attribute of a flattened element (boxes=match(Box)(parts=match_any([p]), label='right')) all "
+            "elements of one collection share an answer, the first satisfying element wins and a later condition on another element loses the row")
     return r
 
 
